@@ -550,3 +550,106 @@ Proof.
       destruct (map_safe_apply (m0 :: m') s (JObj kv) IHd H) as [r [Hr [v [Hv Ha]]]].
       rewrite Hr. subst r. exists v. split; [reflexivity|exact Ha].
 Qed.
+
+(* ------------------------------------------------------------------------------------- *)
+(* The guard in the form of DESIGN §3 C14: "separated" unions.                             *)
+Lemma fields_safe_required : forall fs kv, fields_safe safe fs kv = true -> required_present fs kv = true.
+Proof.
+  induction fs as [|[k [ft req]] fs IH]; intros kv H; simpl in *.
+  - reflexivity.
+  - apply andb_true_iff in H. destruct H as [H1 H2]. rewrite (IH kv H2). unfold has_key.
+    destruct (alookup k kv); [rewrite orb_true_r; reflexivity|]. rewrite H1. reflexivity.
+Qed.
+
+Lemma safe_may_accept : forall v j, safe v j = true -> may_accept v j = true.
+Proof.
+  intros v j H. destruct v; simpl in *; try reflexivity; try discriminate.
+  - destruct j; try discriminate; reflexivity.
+  - destruct j; try discriminate; reflexivity.
+  - destruct j; try discriminate; reflexivity.
+  - destruct j; try discriminate. apply andb_true_iff in H. destruct H as [_ H].
+    apply fields_safe_required. exact H.
+Qed.
+
+Lemma first_safe_at : forall f vs k v j,
+  nth_error vs k = Some v -> f v = true -> safe v j = true ->
+  (forall i w, (i < k)%nat -> nth_error vs i = Some w -> f w = true -> may_accept w j = false) ->
+  first_safe safe f vs j = true.
+Proof.
+  intros f vs. induction vs as [|w vs IH]; intros k v j Hk Hf Hs Hsep.
+  - destruct k; discriminate.
+  - destruct k as [|k]; simpl in *.
+    + inversion Hk; subst. rewrite Hf, (safe_may_accept v j Hs). exact Hs.
+    + destruct (f w) eqn:Ef.
+      * rewrite (Hsep O w (Nat.lt_0_succ k) eq_refl Ef).
+        apply (IH k v j Hk Hf Hs). intros i w0 Hi. apply (Hsep (S i)). apply (proj1 (Nat.succ_lt_mono i k)). exact Hi.
+      * apply (IH k v j Hk Hf Hs). intros i w0 Hi. apply (Hsep (S i)). apply (proj1 (Nat.succ_lt_mono i k)). exact Hi.
+Qed.
+
+Lemma existsb_nth : forall (g : ty -> bool) vs k v, nth_error vs k = Some v -> g v = true -> existsb g vs = true.
+Proof.
+  intros g vs. induction vs as [|w vs IH]; intros k v Hk Hg; destruct k; simpl in *; try discriminate.
+  - inversion Hk; subst. rewrite Hg. reflexivity.
+  - rewrite (IH k v Hk Hg). apply orb_true_r.
+Qed.
+
+(* object payload of the dataclass variant at position k: lossless when every EARLIER dataclass variant
+   misses one of its required keys in the payload (F14a excluded), no discriminator involved *)
+Theorem lossless_separated_obj : forall vs k n fs kv,
+  nth_error vs k = Some (TObj n fs) ->
+  safe (TObj n fs) (JObj kv) = true ->
+  (forall i n' fs', (i < k)%nat -> nth_error vs i = Some (TObj n' fs') -> required_present fs' kv = false) ->
+  lossless (TUnion None vs) (JObj kv).
+Proof.
+  intros vs k n fs kv Hk Hs Hsep. apply safe_lossless. simpl. unfold seq_safe.
+  assert (Hex : existsb (fun v => is_dc v && may_accept v (JObj kv)) vs = true).
+  { apply (existsb_nth _ vs k (TObj n fs) Hk). rewrite (safe_may_accept _ _ Hs). reflexivity. }
+  rewrite Hex. apply (first_safe_at is_dc vs k (TObj n fs) (JObj kv) Hk eq_refl Hs).
+  intros i w Hi Hw Hd. destruct w; try discriminate. simpl. apply (Hsep i name fs0 Hi Hw).
+Qed.
+
+(* non-object, non-null payload of the variant at position k: lossless when no earlier non-dataclass variant
+   may coerce it (F14b excluded) *)
+Theorem lossless_separated_other : forall vs k v j,
+  j <> JNull -> (forall kv, j <> JObj kv) ->
+  nth_error vs k = Some v -> is_other v = true -> safe v j = true ->
+  (forall i w, (i < k)%nat -> nth_error vs i = Some w -> is_other w = true -> may_accept w j = false) ->
+  lossless (TUnion None vs) j.
+Proof.
+  intros vs k v j Hnn Hno Hk Ho Hs Hsep. apply safe_lossless. simpl.
+  destruct j as [| | | | |kv]; try congruence;
+    try (unfold seq_safe; apply (first_safe_at is_other vs k v _ Hk Ho Hs Hsep)).
+  all: try (exfalso; apply (Hno kv); reflexivity).
+Qed.
+
+(* discriminated: the payload names a mapped variant it safely conforms to *)
+Theorem lossless_mapped : forall p m vs kv d V,
+  NoDup (map fst m) -> In (d, V) m -> alookup p kv = Some (JStr d) ->
+  safe V (JObj kv) = true ->
+  lossless (TUnion (Some (p, m)) vs) (JObj kv).
+Proof.
+  intros p m vs kv d V Hnd Hin Hp Hs. destruct (safe_lossless V (JObj kv) Hs) as [v [Hv Ha]].
+  exists v. split; [|exact Ha].
+  change (structure (TUnion (Some (p, m)) vs) (JObj kv)) with (structure_union (Some (p, m)) vs (JObj kv)).
+  rewrite (disc_exact p m vs kv d V Hnd Hin Hp). exact Hv.
+Qed.
+
+(* ---- non-vacuity: the guard holds on overlapping, all-optional, nullable, discriminated inputs ---- *)
+Definition tC := TObj [67] [(k_x, (TUnion None [TInt; TNone], false)); (k_z, (TUnion None [TStr; TNone], false))].
+Example guard_nonvacuous_1 :   (* [B{x,y}; A{x}; C{x?,z?}; list[int]; None] — the later, overlapping variant A is reached *)
+  safe (TUnion None [tB; tA; tC; TList TInt; TNone]) (JObj [(k_x, JInt 1%Z)]) = true
+  /\ structure (TUnion None [tB; tA; tC; TList TInt; TNone]) (JObj [(k_x, JInt 1%Z)]) = Ok (VObj [65] [(k_x, VInt 1%Z)]).
+Proof. split; vm_compute; reflexivity. Qed.
+Example guard_nonvacuous_2 :   (* discriminated, payload of the LAST variant, mapping decides *)
+  safe (TUnion (Some (k_t, [(n_Ta, tTa); (n_Tb, tTb)])) [tTa; tTb]) j_F14d = true.
+Proof. vm_compute. reflexivity. Qed.
+Example guard_nonvacuous_3 :   (* list of nullable unions of int and list[str]: [1, ["a"], null] *)
+  safe (TList (TUnion None [TInt; TList TStr; TNone])) (JArr [JInt 1%Z; JArr [JStr [97]]; JNull]) = true.
+Proof. vm_compute. reflexivity. Qed.
+Lemma guard_nonvacuous :
+  exists t j, safe t j = true /\ (exists d vs, t = TUnion d vs /\ (length vs >= 4)%nat) /\ j <> JNull.
+Proof.
+  exists (TUnion None [tB; tA; tC; TList TInt; TNone]), (JObj [(k_x, JInt 1%Z)]).
+  split; [exact (proj1 guard_nonvacuous_1)|]. split; [|discriminate].
+  eexists _, _. split; [reflexivity|]. simpl. repeat constructor.
+Qed.
